@@ -1079,6 +1079,26 @@ vs_close(int fd)
   return close(fd);
 }
 
+/* ---- hook H2: scheduler events ------------------------------------------- */
+
+/* index of an event name in vs_record.ev_count[] (also printed by explore.c) */
+const char *const vs_event_names[16] = {
+  "reorder", "parse", "emit", "retrieve", "scan", "transmit", "collect", "collect_seq",
+  "x-scan-candidate", "x-scan-known", "x-parse-adopt", "x-parse-discard", "x-retr-abort",
+  "x-reorder-reject", "x-advance-drop", "x-eof-drop"
+};
+
+void
+verif_event(const char *name)
+{
+  int i;
+  for (i = 0; i < 16; i++)
+    if (!strcmp(name, vs_event_names[i])) {
+      vs_rec->ev_count[i]++;
+      return;
+    }
+}
+
 /* ---- start -------------------------------------------------------------- */
 
 void
